@@ -48,6 +48,9 @@ def families(rng, dtype):
         out.append(("triple-root", dict(), (lambda x: (x - T(0.5)) * (x + T(0.25)) * (x - T(1.75))), T(-1.0), T(3.0), True, True))
         sc = T(10.0 ** rng.uniform(-6, 9))
         out.append(("exp-shift", dict(sc=float(sc)), (lambda x, sc=sc: sc * (np.exp(x) - T(2.0))), T(0.0), T(2.0), True, True))
+        r1, r2, r3 = T(rng.uniform(-2.5, -1.0)), T(rng.uniform(-0.5, 0.5)), T(rng.uniform(1.0, 2.5))
+        d1, d2 = T(rng.uniform(0.02, 0.6)), T(rng.uniform(0.02, 0.6))
+        out.append(("cubic-roots-just-outside", dict(r=[float(r1), float(r2), float(r3)]), (lambda x, r1=r1, r2=r2, r3=r3: (x - r1) * (x - r2) * (x - r3)), r1 + d1, r3 - d2, True, True))
         tiny = T(10.0 ** rng.uniform(-12, -9))
         out.append(("tiny-positive", dict(t=float(tiny)), (lambda x, tiny=tiny: tiny * (T(1.0) + x * x)), T(-1.0), T(1.0), False, True))
     return out
@@ -76,6 +79,9 @@ def check_props(ctx, name, params, f, lo, hi, tol, sc, cont, root, success, T, w
     rejected = not np.isfinite(root)
     if not rejected:
         ctx.oracle("root-in-bracket", min(lo, hi) <= root <= max(lo, hi), inp, what="returned point %r outside the bracket" % (float(root),))
+    elif fa * fb <= 0:
+        ctx.oracle("root-in-bracket", False, inp, key="bracket-with-root-rejected",
+                   what="bracket with f(lo)*f(hi) = %r <= 0 (sign change or root at an end point) rejected: returned %r, success=%r" % (float(fa * fb), float(root), bool(success)))
     if success:
         fr = abs(f(T(root)))
         ctx.oracle("success-sound", bool(fr <= tolv) or sign_change_near(f, root, tolv, T), inp,
@@ -197,6 +203,16 @@ def run(ctx):
                     continue
                 check_props(ctx, name, params, f, T2(lo), T2(hi), tol, sc, cont, root, bool(success), T2, "brentsroot")
                 ctx.count("dtype:" + np.dtype(T2).name)
+
+
+def search(ctx, broken):
+    """a proof obligation or the correspondence broke: look harder for an input on which the property fails"""
+    saved = ctx.tier
+    ctx.tier = "thorough"
+    try:
+        run(ctx)
+    finally:
+        ctx.tier = saved
 
 
 def replay(rep):
